@@ -704,6 +704,15 @@ Theorem C19_plsr_constant_X_degenerate : forall (init : tensor R -> list (tensor
 Proof. exact plsr_constant_X_degenerate. Qed.
 Print Assumptions C19_plsr_constant_X_degenerate.
 
+(* ... and likewise constant targets: every Y loading of every component is the zero vector and every Y score is 0 *)
+Theorem C19_plsr_constant_Y_degenerate : forall (init : tensor R -> list (tensor R)) (ne_solve : list (list R) -> list R -> list R)
+  (tol : R) (n_iter ncomp : nat) (X Y : tensor R) (n : nat) (sy : list nat) (r : plsr) (c : comp),
+  shape Y = n :: sy -> 0 < n -> constant_samples Rops Y ->
+  cp_plsr_fit Rops sqrt init ne_solve tol n_iter ncomp X Y = Ok r -> In c (comps r) ->
+  (sumsq Rops (c_yload c) = 0%R /\ forall J, tget Rops (c_yload c) J = 0%R) /\ (forall t, In t (c_yscore c) -> t = 0%R).
+Proof. exact plsr_constant_Y_degenerate. Qed.
+Print Assumptions C19_plsr_constant_Y_degenerate.
+
 (* ---- CP_PLSR.score(X, Y) (matrix Y) ---- *)
 (* it is the R2_score of tensorly/metrics/regression.py (the model of property C20, Model/Metrics.v, read only) applied to
    (Y - Y_mean_, predict(X) - Y_mean_): commutative ring *)
